@@ -25,13 +25,17 @@ F4 = 'an event accepted by several buses (forwarding / re-dispatch) signals comp
 fixed('F4', 'C03', ['C03.descendant_incomplete', 'C03.incomplete_at_return', 'C03.results_not_terminal'], '2d13127', F4)
 fixed('F4', 'C08', ['C08.changed_after_complete'], '2d13127', F4, 'findings/F4_c08.json')
 fixed('F4', 'C04', ['C04.descendant_incomplete', 'C04.child_incomplete_at_return', 'C04.results_not_terminal'], '2d13127', F4, 'findings/F4_C04.json')
-F5b = 'a handler timeout aborts an UNRELATED event that its await loop was draining inline; that event never completes'
-known('F5b', 'C10', ['C10.event_incomplete', 'C10.result_left_nonterminal', 'C10.hang'], F5b)
-known('F5b', 'C01', ['C01.missing', 'C01.hang'], F5b + ' and its remaining handlers never run', '')
-known('F5b', 'C03', ['C03.hang', 'C03.descendant_incomplete'], F5b + ', awaiting it hangs', '')
-known('F5b', 'C04', ['C04.child_incomplete_at_return', 'C04.descendant_incomplete', 'C04.hang', 'C04.released_only_by_timeout'], F5b + '; an in-handler await of it returns it incomplete', '')
-known('F5b', 'C14', ['C14.accepted_missing', 'C14.hang', 'C14.parent_never_completes'], F5b + ' and its remaining handlers never run', '')
-known('F5b', 'C15', ['C15.hang'], F5b + ' and stays started in history, wait_until_idle never returns', '')
+F5b = 'a handler timeout aborts an UNRELATED event that its await loop was draining inline'
+F5b_left = F5b + ': the handlers of that event that had not started are recorded as cancelled and never run (the event itself completes since 4bfc020)'
+known('F5b', 'C01', ['C01.missing'], F5b_left, 'findings/F5b_C01.json')
+known('F5b', 'C14', ['C14.accepted_missing'], F5b_left, '')
+F5b_was = F5b + '; that event never completed'
+fixed('F5b', 'C10', ['C10.event_incomplete', 'C10.result_left_nonterminal', 'C10.hang'], '4bfc020', F5b_was, 'findings/F5b.json')
+fixed('F5b', 'C01', ['C01.hang'], '4bfc020', F5b_was, 'findings/F5b_C01.json')
+fixed('F5b', 'C03', ['C03.hang', 'C03.descendant_incomplete'], '4bfc020', F5b_was + ', awaiting it hung', 'findings/F5b_C03.json')
+fixed('F5b', 'C04', ['C04.child_incomplete_at_return', 'C04.descendant_incomplete', 'C04.hang', 'C04.released_only_by_timeout'], '4bfc020', F5b_was + '; an in-handler await of it returned it incomplete', '')
+fixed('F5b', 'C14', ['C14.hang', 'C14.parent_never_completes'], '4bfc020', F5b_was, '')
+fixed('F5b', 'C15', ['C15.hang'], '4bfc020', F5b_was + ' and stayed started in history, wait_until_idle never returned', 'findings/F5b_C15.json')
 fixed('F9', 'C09', ['C09.event_bus'], '27bab07', 'event.event_bus returned the last bus of event_path, wrong for handlers that run after the event was forwarded')
 F11 = 'an in-flight (started) parent is evicted from a small history while its children outnumber max_history_size; upward completion cannot find it'
 fixed('F11', 'C13', ['C13.hang'], '9cd3959', F11 + ' and awaiting it hangs')
@@ -47,8 +51,6 @@ fixed('F14', 'C02', ['C02.inversion'], '84bdfef', 'a run loop holds a dequeued e
 F15 = 'on a parallel_handlers bus two sibling handlers that both await children process those subtrees concurrently'
 known('F15', 'C06', ['C06.overlap'], F15)
 known('F15', 'C02', ['C02.serial_overlap'], F15 + ' (also on a serial bus reached from both)', '')
-for _f, _w in (('F5b', F5b),):
-    known(_f, 'C05', ['C05.unrelated_in_window'], _w + '; the await returns the child incomplete and other handlers run before the child completes', '')
 known('F15', 'C05', ['C05.unrelated_in_window'], F15 + ', so unrelated handlers start inside an await window', '')
 known('F15', 'C04', ['C04.child_incomplete_at_return', 'C04.descendant_incomplete'], F15 + '; one polling loop takes the child the other one is waiting for', '')
 
